@@ -212,10 +212,13 @@ pub struct Sim {
     low_submit: Vec<u32>,
     /// request variants every submitted task came with
     task_rqv: BTreeMap<TaskId, ResourceRequestVariants>,
+    /// time limit every submitted task came with
+    task_tl: BTreeMap<TaskId, Option<std::time::Duration>>,
     /// (proactive_filling_reserve, proactive_filling_max) of the scheduler
     pub prefill: (u32, u32),
     /// exhaustive exploration: remaining (worker losses, cancels, extra workers) on this path
     pub x_budget: (u32, u32, u32),
+    pub x_submit: u32,
     /// generator profile: 0 basic, 1 prefill-heavy, 2 multi-node, 3 resources/variants/strict policies,
     /// 4 worker time limits and time requests (incl. variants with different time requests)
     pub profile: u64,
@@ -313,6 +316,12 @@ pub fn gen_rq(rng: &mut Rng, profile: u64) -> ResourceRequestVariants {
                 _ => cpu_rq(1, 0),
             },
         },
+        4 if rng.chance(1, 6) => {
+            // a multi-node request with a time request (workers of profile 4 have time limits)
+            let mut r = rq(rng.range(1, 2) as u32, vec![]);
+            r.min_time = std::time::Duration::from_secs(*rng.pick(&[0u64, 600, 3600]));
+            ResourceRequestVariants::new_simple(r)
+        }
         4 => {
             let t = |rng: &mut Rng| std::time::Duration::from_secs(*rng.pick(&[0u64, 0, 600, 3600]));
             let mut a = rq(0, vec![cpu(AllocationRequest::Compact(ResourceAmount::new_units(rng.range(1, 2) as u32)))]);
@@ -428,7 +437,9 @@ impl Sim {
             wait_mode: false,
             low_submit: vec![],
             task_rqv: Default::default(),
+            task_tl: Default::default(),
             x_budget: (1, 1, 1),
+            x_submit: 0,
             prefill,
             panicked: None,
             log: vec![format!("profile {profile}")],
@@ -650,6 +661,14 @@ impl Sim {
     pub fn client_action(&mut self, op_line: String, msg: FromClientMessage) {
         let is_submit = matches!(msg, FromClientMessage::Submit(..));
         let is_forget = matches!(msg, FromClientMessage::ForgetJob(..));
+        // the time limit every task of the submit was given
+        let submit_tls: Vec<(Option<u32>, Option<std::time::Duration>)> = match &msg {
+            FromClientMessage::Submit(r, _) => match &r.submit_desc.task_desc {
+                JobTaskDescription::Array { task_desc, .. } => vec![(None, task_desc.time_limit)],
+                JobTaskDescription::Graph { tasks, .. } => tasks.iter().map(|t| (Some(t.id.as_num()), t.task_desc.time_limit)).collect(),
+            },
+            _ => vec![],
+        };
         // the request class of every task of the submit (for directed submits of the same class later)
         let submit_rqs: Option<(Option<ResourceRequestVariants>, Vec<(u32, ResourceRequestVariants)>)> = match &msg {
             FromClientMessage::Submit(r, _) => match &r.submit_desc.task_desc {
@@ -677,6 +696,7 @@ impl Sim {
             _ => None,
         };
         let executing_before = self.world.running_tasks();
+        let jobs_before: Vec<u32> = if is_forget { snapshot_jobs(&self.world.state_ref).iter().map(|j| j.id).collect() } else { vec![] };
         self.world.sent.clear();
         let resp = self.client_op(op_line, msg);
         if self.panicked.is_some() {
@@ -742,6 +762,13 @@ impl Sim {
             }
             Some(ToClientMessage::ForgetJobResponse(r)) => {
                 self.job.lines.push(format!("out resp forget {} {}", r.forgotten, r.ignored));
+                // C13: only completed jobs can be forgotten (an open job, or one with unfinished tasks, stays)
+                let still: Vec<u32> = snapshot_jobs(&self.world.state_ref).iter().map(|j| j.id).collect();
+                for j in &jobs_before {
+                    if !still.contains(j) && self.completed.get(j).copied().unwrap_or(0) == 0 {
+                        self.job.lines.push(format!("mon FAIL c13.completed_once forgot-uncompleted-job job {j} was removed by a forget request although it was never reported completed"));
+                    }
+                }
             }
             Some(ToClientMessage::Finished) => {} // waiting submit (the response arrives after the journal flush) / prune
             other => self.job.lines.push(format!("out resp !unexpected {other:?}").replace('\n', " ")),
@@ -759,6 +786,10 @@ impl Sim {
             let after: Vec<TaskId> = self.world.server.task_ids();
             let new: Vec<TaskId> = after.iter().filter(|t| !before.contains(t)).cloned().collect();
             self.job.lines.push(format!("out core {}", tids(&new)));
+            for t in &new {
+                let tl = submit_tls.iter().find(|(id, _)| id.is_none() || *id == Some(t.job_task_id().as_num())).map(|(_, l)| *l).unwrap_or(None);
+                self.task_tl.insert(*t, tl);
+            }
             if let Some((all, per)) = submit_rqs {
                 for t in &new {
                     let r = all.clone().or_else(|| per.iter().find(|(id, _)| *id == t.job_task_id().as_num()).map(|(_, r)| r.clone()));
@@ -792,7 +823,9 @@ impl Sim {
             3 => CrashLimit::Unlimited,
             _ => CrashLimit::default(),
         };
-        (task_desc(prio, crash, None), prio)
+        // task time limits (never reached in the simulated cluster: tasks end when the harness says so); profile 4 only
+        let tl = if self.profile == 4 { *self.rng.pick(&[None, None, Some(3_600_000u64), Some(7_200_000), Some(10_800_000)]) } else { None };
+        (task_desc(prio, crash, tl), prio)
     }
 
     pub fn act_submit(&mut self) {
@@ -844,7 +877,7 @@ impl Sim {
                         self.low_submit.push(j);
                     }
                 }
-                let n = if low.is_some() { 1 } else { entries.unwrap_or(if profile == 1 { self.rng.range(3, 8) as u32 } else { self.rng.range(1, 4) as u32 }) };
+                let n = if low.is_some() { 1 } else { entries.unwrap_or(if profile == 1 || (profile == 3 && self.rng.chance(1, 3)) { self.rng.range(3, 8) as u32 } else { self.rng.range(1, 4) as u32 }) };
                 if self.rng.chance(1, 4) && n >= 2 {
                     // stepped range with exactly n elements
                     let step = 2;
@@ -1165,6 +1198,38 @@ impl Sim {
         self.world_action(vec![op], |s| s.world.lose_worker(id, reason));
     }
 
+    /// time passes on a worker that the server does not see (message delay / clock skew): the worker's remaining life
+    /// time shrinks, so a task the server judged feasible can be refused on arrival (hard reject) or retracted by the
+    /// worker's own check
+    pub fn do_age_worker(&mut self, id: u32, ms: u64) {
+        // never beyond the limit (a real worker stops itself there)
+        let Some(rem) = self.world.workers.get(&id).and_then(|w| w.vw.remaining_ms()) else { return };
+        if ms + 1000 >= rem {
+            return;
+        }
+        self.act_line(format!("age_worker {id} {ms}"));
+        self.log.push(format!("age_worker {id} {ms}"));
+        if let Some(w) = self.world.workers.get(&id) {
+            w.vw.age(std::time::Duration::from_millis(ms));
+        }
+        // the worker really ends that much earlier than the server believes (what "can run it" means at rest)
+        if let Some(t) = self.mon.worker_term.get(&id).copied() {
+            let cur = self.mon.worker_true_term.get(&id).copied().unwrap_or(t);
+            self.mon.worker_true_term.insert(id, cur.saturating_sub(ms));
+        }
+    }
+
+    pub fn act_age_worker(&mut self) -> bool {
+        let cands: Vec<(u32, u64)> = self.world.workers.iter().filter_map(|(id, w)| w.vw.remaining_ms().map(|r| (*id, r))).collect();
+        if cands.is_empty() {
+            return false;
+        }
+        let (id, rem) = *self.rng.pick(&cands);
+        let ms = rem * self.rng.range(3, 9) / 10;
+        self.do_age_worker(id, ms);
+        true
+    }
+
     pub fn act_schedule(&mut self) {
         self.act_line("schedule".to_string());
         self.world.now_ms += 10;
@@ -1204,6 +1269,22 @@ impl Sim {
             let m = if to_worker { format!("{:?}", w.to_worker.front().unwrap()) } else { format!("{:?}", w.to_server.front().unwrap()) };
             let m: String = m.chars().filter(|c| *c != '\n').take(400).collect();
             self.log.push(format!("deliver {} {} {}", if to_worker { "s2w" } else { "w2s" }, id, m));
+            if to_worker {
+                if let ToWorkerMessage::ComputeTasks(m) = w.to_worker.front().unwrap() {
+                    for t in &m.tasks {
+                        if let (Some(expect), Some(sh)) = (self.task_tl.get(&t.id), m.shared_data.get(t.shared_index)) {
+                            if sh.time_limit != *expect {
+                                let l = format!(
+                                    "mon FAIL c01.ran sent-with-time-limit-of-another-task task {} was submitted with time limit {:?} but is sent to worker {} with {:?}",
+                                    tid(t.id), expect, id, sh.time_limit
+                                );
+                                self.job.lines.push(l.clone());
+                                self.core.lines.push(l);
+                            }
+                        }
+                    }
+                }
+            }
             if !to_worker {
                 let front = w.to_server.front().unwrap();
                 if let Some(op) = crate::coreview::update_op(id, front) {
@@ -1278,7 +1359,16 @@ impl Sim {
         let jobs = snapshot_jobs(&self.world.state_ref);
         let snap = self.world.server.core_snapshot();
         let completed = self.completed.clone();
-        self.mon.rest(&jobs, &snap, &completed);
+        // With a connected worker whose clock ran ahead of what the server saw (`age_worker`), "at rest" is not a
+        // rest of the real system: the server still believes the worker has time for requests it refuses, and in the
+        // real system its own clock catches up within the skew. The progress clause is not judged on such states.
+        let skew = snap.workers.iter().any(|w| match (self.mon.worker_true_term.get(&w.id), self.mon.worker_term.get(&w.id)) {
+            (Some(a), Some(b)) => a != b,
+            _ => false,
+        });
+        if !skew {
+            self.mon.rest(&jobs, &snap, &completed);
+        }
         let fails = std::mem::take(&mut self.mon.fails);
         for f in fails {
             self.job.lines.push(f.clone());
@@ -1327,11 +1417,53 @@ impl Sim {
                 }
                 "fail_next_launch" => self.do_fail_next_launch(parse_tid(toks[0])),
                 "rest_check" => self.do_rest_check(),
+                "age_worker" => self.do_age_worker(toks[0].parse().unwrap(), toks[1].parse().unwrap()),
                 "hold_flush" => self.do_hold_flush(),
                 "release_flush" => self.do_release_flush(),
                 other => panic!("unknown act {other}"),
             }
         }
+    }
+
+    /// multi-node tasks: aim at a running multi-node task (lose its root or a non-root worker, cancel its job, end it)
+    /// or, when one is waiting, make room for it / connect workers of one group
+    fn act_focus_mn(&mut self) -> bool {
+        use tako::verif::server::SnapTaskState;
+        let snap = self.world.server.core_snapshot();
+        let reasons = [LostWorkerReason::Stopped, LostWorkerReason::ConnectionLost, LostWorkerReason::HeartbeatLost, LostWorkerReason::IdleTimeout];
+        let running: Vec<(TaskId, Vec<u32>)> =
+            snap.tasks.iter().filter_map(|t| if let SnapTaskState::RunningMultiNode(ws) = &t.state { Some((t.id, ws.clone())) } else { None }).collect();
+        if !running.is_empty() {
+            let (t, ws) = self.rng.pick(&running).clone();
+            let reason = *self.rng.pick(&reasons);
+            match self.rng.below(8) {
+                0 | 1 | 2 => self.do_lose_worker(ws[0], reason),
+                3 => {
+                    let w = *self.rng.pick(&ws);
+                    self.do_lose_worker(w, reason)
+                }
+                4 => {
+                    let j = t.job_id().as_num();
+                    self.client_action(format!("cancel {j}"), FromClientMessage::Cancel(CancelRequest { selector: Self::selector(&[j]), reason: None }));
+                }
+                5 => {
+                    let kind = if self.rng.chance(1, 3) { EndKind::Error } else { EndKind::Finished };
+                    if !self.do_end_task(ws[0], t, kind) {
+                        self.do_deliver(ws[0], true);
+                    }
+                }
+                6 => {
+                    if !self.do_deliver(ws[0], true) {
+                        self.do_deliver(ws[0], false);
+                    }
+                }
+                _ => {
+                    self.do_deliver(ws[0], false);
+                }
+            }
+            return true;
+        }
+        false
     }
 
     /// State-directed submits (each a legal client request the uniform generator produces too rarely):
@@ -1365,7 +1497,40 @@ impl Sim {
             }
         }
         let profile = self.profile;
-        match self.rng.below(3) {
+        // open jobs with a task that ended unsuccessfully (failed / canceled / ABORTED): a dependency on it must be refused
+        let mut bad_cands: Vec<(u32, Vec<u32>, u32)> = vec![];
+        {
+            let state = self.world.state_ref.get();
+            for j in &self.open_jobs {
+                if let Some(job) = state.get_job(JobId::new(*j)) {
+                    if !job.is_open() {
+                        continue;
+                    }
+                    let bad: Vec<u32> = job
+                        .tasks
+                        .iter()
+                        .filter(|(_, t)| matches!(t.state, JobTaskState::Failed { .. } | JobTaskState::Canceled { .. } | JobTaskState::Aborted { .. }))
+                        .map(|(k, _)| k.as_num())
+                        .collect();
+                    if !bad.is_empty() {
+                        bad_cands.push((*j, bad, job.tasks.keys().map(|k| k.as_num()).max().unwrap_or(0)));
+                    }
+                }
+            }
+        }
+        match self.rng.below(4) {
+            3 if !bad_cands.is_empty() => {
+                let (j, bad, max) = self.rng.pick(&bad_cands).clone();
+                let dep = *self.rng.pick(&bad);
+                let id = max + 1;
+                let (td, _) = self.gen_task_desc();
+                let desc = JobTaskDescription::Graph {
+                    resource_rqs: vec![gen_rq(&mut self.rng, profile)],
+                    tasks: vec![TaskWithDependencies { id: JobTaskId::new(id), resource_rq_id: LocalResourceRqId::new(0), task_desc: td, task_deps: vec![JobTaskId::new(dep)] }],
+                };
+                self.submit_desc(Some(j), None, desc, format!("graph {id}:{dep}"));
+                true
+            }
             0 if !cands.is_empty() => {
                 let (j, fin, unf, max) = self.rng.pick(&cands).clone();
                 let mut deps: Vec<u32> = vec![*self.rng.pick(&fin), *self.rng.pick(&unf)];
@@ -1542,6 +1707,12 @@ impl Sim {
             self.act_prune();
             return;
         }
+        if self.profile == 4 && self.rng.chance(1, 12) && self.act_age_worker() {
+            return;
+        }
+        if self.profile == 2 && self.rng.chance(1, 6) && self.act_focus_mn() {
+            return;
+        }
         let nworkers = self.world.workers.len() as u64;
         let w = [
             if nworkers < if self.profile == 2 { 4 } else { 3 } { 6 } else { 0 }, // add worker
@@ -1632,17 +1803,20 @@ pub enum XAct {
     Lose(u32, bool),
     Cancel(u32),
     AddWorker,
+    /// a 2-node task arrives (scenario 3)
+    SubmitMn,
 }
 
 impl Sim {
     /// scenario 0: one 2-cpu worker, closed graph job 0; 1:0; 2 with max_fails 0
     /// scenario 1: two 1-cpu workers, array job of 3 tasks, proactive filling reserve 0 / max 2
     /// scenario 2: two workers of one group, one 2-node task and one 1-cpu task
+    /// scenario 3: two groups of two 1-cpu workers, two 1-cpu tasks; a 2-node task may arrive later
     pub fn scenario(k: u32) -> Sim {
         use tako::resources::ResourceDescriptor;
         let prefill = if k == 1 { (0, 2) } else { (1, 1) };
         let mut s = Sim::build(0, false, prefill);
-        s.profile = if k == 2 { 2 } else { 0 };
+        s.profile = if k >= 2 { 2 } else { 0 };
         let mut add = |s: &mut Sim, cpus: u32, group: &str| {
             let next = WorkerId::new(s.world.server.worker_counter() + 1);
             let mut cfg = worker_config(next, cpus, group, None);
@@ -1671,6 +1845,21 @@ impl Sim {
                     task_desc: task_desc(0, CrashLimit::default(), None),
                 };
                 s.submit_desc(None, None, desc, "array 0:3:1 -".to_string());
+            }
+            3 => {
+                add(&mut s, 1, "ga");
+                add(&mut s, 1, "ga");
+                add(&mut s, 1, "gb");
+                add(&mut s, 1, "gb");
+                let sn = JobTaskDescription::Array {
+                    ids: IntArray::new(vec![IntRange::new(0, 2, 1)]),
+                    entries: None,
+                    resource_rq: cpu_rq(1, 0),
+                    task_desc: task_desc(0, CrashLimit::default(), None),
+                };
+                s.submit_desc(None, None, sn, "array 0:2:1 -".to_string());
+                s.x_budget = (0, 0, 0);
+                s.x_submit = 1;
             }
             _ => {
                 add(&mut s, 1, "ga");
@@ -1713,6 +1902,9 @@ impl Sim {
         if self.x_budget.2 > 0 {
             v.push(XAct::AddWorker);
         }
+        if self.x_submit > 0 {
+            v.push(XAct::SubmitMn);
+        }
         v
     }
 
@@ -1732,6 +1924,11 @@ impl Sim {
             XAct::Cancel(j) => {
                 self.x_budget.1 -= 1;
                 self.client_action(format!("cancel {j}"), FromClientMessage::Cancel(CancelRequest { selector: Self::selector(&[*j]), reason: None }));
+            }
+            XAct::SubmitMn => {
+                self.x_submit -= 1;
+                let mn = JobTaskDescription::Array { ids: IntArray::from_id(0), entries: None, resource_rq: cpu_rq(0, 2), task_desc: task_desc(1, CrashLimit::MaxCrashes(1), None) };
+                self.submit_desc(None, None, mn, "array 0:1:1 -".to_string());
             }
             XAct::AddWorker => {
                 self.x_budget.2 -= 1;
